@@ -11,7 +11,7 @@ THEOREMS = {
             "Lemmas.Rev.loaded_of_load", "Lemmas.Rev.upgradeNeeds_spec", "Lemmas.Rev.allDownOf_mem_iff_parents",
             "Lemmas.Rev.mem_ancSet_iff"],
     "C02": ["C02.plan", "C02.plan_of_set", "C02.target_safe", "C02.reach_inv", "C02.mem_downgradeSet",
-            "Lemmas.Rev.topoSort_ok", "Lemmas.Rev.loaded_of_load", "C02.downgradeOk_sound"],
+            "Lemmas.Rev.topoSort_ok", "Lemmas.Rev.loaded_of_load", "C02.downgradeOk_sound", "C02.plan_history"],
     "C03": ["C03.step", "C03.upgrade_run", "C03.downgrade_run", "C03.run_up", "C03.run_down", "C03.init",
             "C03.all_applied_rows", "C03.none_applied_rows", "C03.applied_iff_requires",
             "Lemmas.Rev.step_up", "Lemmas.Rev.step_down", "Lemmas.Rev.mem_unmergeTo", "Lemmas.Rev.mem_mergeFrom", "C03.rowsOk_sound", "C03.traceOk_sound"],
